@@ -235,6 +235,11 @@ def build_harness(crate, profile='dev', timeout=3600):
         cmd.append('--release')
     env = dict(ENV, CARGO_TARGET_DIR=target_dir(crate))
     rc, out = sh(cmd, timeout, cwd=os.path.join(ROOT, 'harness'), env=env)
+    if rc != 0 and ('failed to select a version' in out or 'is yanked' in out):
+        # cargo pruned a (meanwhile yanked) package from the shared lock file that a new member needs:
+        # start again from the repository's lock file, which pins everything
+        open(lock_dst, 'w').write(open(lock_src).read())
+        rc, out = sh(cmd, timeout, cwd=os.path.join(ROOT, 'harness'), env=env)
     return rc, out
 
 
